@@ -150,8 +150,14 @@ class Ctx:
             "unspecified": self.unspecified,
             "exhaustive": self.exhaustive,
             "extra": self.extra,
+            "refused": _refused(),
             "wall": time.time() - self.t0,
         }
+
+
+def _refused():
+    h = sys.modules.get("vlib.harness")
+    return h.REFUSED[0] if h is not None else 0
 
 
 def _assert_tree():
@@ -176,6 +182,8 @@ def _run_shard(args):
     try:
         _assert_tree()
         mod = importlib.import_module(modname)
+        if "vlib.harness" in sys.modules:
+            sys.modules["vlib.harness"].REFUSED[0] = 0   # forked after the replay tier, which has its own count
         ctx = Ctx(mod.ID, tier, seed, shard, nshards, budget)
         if phase is None:
             mod.shard(ctx)
@@ -264,6 +272,8 @@ def main(argv=None):
     excluded_known = 0
     known_lines = []
     replayed = 0
+    refused = 0   # cases that could not be evaluated: py_gql refused a schema valid by construction (decided by C11 / C13)
+    from vlib.harness import SchemaRefused
 
     # ---- known findings: replay each witness
     try:
@@ -280,7 +290,11 @@ def main(argv=None):
         if os.path.isdir(rdir) and not os.environ.get("VERIF_NO_REPLAYS"):   # switch for experiments on the generators alone
             for fn in sorted(os.listdir(rdir)):
                 if fn.endswith(".json"):
-                    data, vios = replay_file(mod, os.path.join(rdir, fn))
+                    try:
+                        data, vios = replay_file(mod, os.path.join(rdir, fn))
+                    except SchemaRefused:
+                        refused += 1
+                        continue
                     replayed += 1
                     for s, d in vios:
                         if s in known_sigs:
@@ -318,6 +332,7 @@ def main(argv=None):
         events.update(r["events"])
         samples += r["samples"]
         unspecified += r["unspecified"]
+        refused += r.get("refused", 0)
         exhaustive.update(r["exhaustive"])
         for k, v in r["extra"].items():
             extra.setdefault(k, []).append(v)
@@ -368,6 +383,8 @@ def main(argv=None):
     }
     if exhaustive:
         cov["exhaustive_subdomains"] = exhaustive
+    if refused:
+        cov["not_evaluated_schema_refused_by_library"] = refused
     for k, v in extra.items():
         cov[k] = v[0] if len(v) == 1 else v
     ev = {
@@ -387,6 +404,8 @@ def main(argv=None):
 
     for l in known_lines:
         print(l)
+    if refused:
+        print("NOT-EVALUATED: %d cases: py_gql refused a schema that is valid by construction (C11 / C13 decide that)" % refused)
     print("%s tier=%s seed=%d evaluations=%d distinct_nontrivial=%d unspecified=%d excluded_known=%d wall=%.1fs"
           % (prop, tier, seed, evaluations, len(nontrivial), unspecified, excluded_known, time.time() - t0))
     if evaluations < 1 or len(nontrivial) < 2:
